@@ -562,7 +562,9 @@ class AsyncParmapper(AsyncIterable):
                     raise exc
                 return fut.result()
 
-            async def func(x, *, executor, loop, **kwargs):
+            async def func(x, **kwargs):
+                # (`executor` and `loop` are not passed in as keyword arguments:
+                # the user's function may have keyword arguments of these names)
                 fut = executor.submit(self._func, x, **kwargs)
                 return loop.run_in_executor(None, result, fut)
 
@@ -575,8 +577,6 @@ class AsyncParmapper(AsyncIterable):
                 return_x=self._return_x,
                 return_exceptions=self._return_exceptions,
                 preprocessor=self._preprocessor,
-                executor=executor,
-                loop=loop,
                 **self._func_kwargs,
             ):
                 yield z
@@ -619,7 +619,9 @@ class AsyncParmapperAsync(AsyncIterable):
             async with gate:
                 return await self._func(x, **kwargs)
 
-        async def func(x, loop, **kwargs):
+        loop = asyncio.get_running_loop()
+
+        async def func(x, **kwargs):
             return loop.create_task(_func(x, **kwargs))
 
         return async_fifo_stream(
@@ -630,6 +632,5 @@ class AsyncParmapperAsync(AsyncIterable):
             return_x=self._return_x,
             return_exceptions=self._return_exceptions,
             preprocessor=self._preprocessor,
-            loop=asyncio.get_running_loop(),
             **self._func_kwargs,
         )
